@@ -624,7 +624,7 @@ def parse_converter(repo, relpath, name, env, type_int):
             continue
         if not (env["MPT__TypeScalarBase"] <= code <= env["MPT__TypeScalarMax"]):
             fail("%s: case label %d is neither a scalar nor a vector code" % (name, code), it[1])
-        guards, store = [], None
+        guards, dest_guards, store = [], [], None
         for s in stmts[:-1]:
             if s.get("kind") == "IfStmt":
                 ks = kids(s)
@@ -634,9 +634,24 @@ def parse_converter(repo, relpath, name, env, type_int):
                 if then.get("kind") == "CompoundStmt" and len(kids(then)) == 1:
                     (then,) = kids(then)
                 if is_ref(cond, "dest"):
-                    stt = parse_store(then, src)
-                    if stt is None or store is not None:
+                    # `if (dest) store;`  or  `if (dest) { guard* store; }`  (guards that only run with a destination)
+                    inner = kids(then) if then.get("kind") == "CompoundStmt" else [then]
+                    if not inner or store is not None:
                         fail("%s: unexpected `if (dest)` body in case %d" % (name, code), s)
+                    for g in inner[:-1]:
+                        gk = kids(g) if g.get("kind") == "IfStmt" else []
+                        if len(gk) != 2:
+                            fail("%s: unsupported statement under `if (dest)` in case %d" % (name, code), g)
+                        gthen = gk[1]
+                        if gthen.get("kind") == "CompoundStmt" and len(kids(gthen)) == 1:
+                            (gthen,) = kids(gthen)
+                        gerr = parse_error_return(gthen)
+                        if gerr is None or is_ref(gk[0], "dest"):
+                            fail("%s: unsupported statement under `if (dest)` in case %d" % (name, code), g)
+                        dest_guards.append({"conds": parse_disj(gk[0], src, env), "err": gerr})
+                    stt = parse_store(inner[-1], src)
+                    if stt is None:
+                        fail("%s: `if (dest)` block does not end in the store in case %d" % (name, code), s)
                     store = (stt, True)
                     continue
                 err = parse_error_return(then)
@@ -655,7 +670,7 @@ def parse_converter(repo, relpath, name, env, type_int):
             fail("%s: case %d does not return sizeof(T)" % (name, code), stmts[-1])
         if store is None:
             fail("%s: case %d has no store" % (name, code), stmts[-1])
-        cases.append({"code": code, "guards": guards, "store": store[0], "guarded": store[1], "ret": ret})
+        cases.append({"code": code, "guards": guards, "dest_guards": dest_guards, "store": store[0], "guarded": store[1], "ret": ret})
     if dflt is None:
         fail("%s: switch without default" % name, sk[1])
     return {"name": name, "src": src, "alias": alias, "cases": cases, "vectors": sorted(vectors), "dflt": dflt}
@@ -1203,9 +1218,9 @@ def emit_convint(data):
         L.append("    vectors := [%s]," % ", ".join(str(v) for v in f["vectors"]))
         L.append("    cases := [")
         rows = []
-        for c in f["cases"]:
+        def fmt_guards(gl):
             gs = []
-            for g in c["guards"]:
+            for g in gl:
                 disj = []
                 for conj in g["conds"]:
                     atoms = []
@@ -1216,8 +1231,10 @@ def emit_convint(data):
                             atoms.append(".notIsgraph .%s" % a["idx"])
                     disj.append("[" + ", ".join(atoms) + "]")
                 gs.append("{ conds := [%s], err := .%s }" % (", ".join(disj), g["err"]))
-            rows.append("      { code := %d, guards := [%s], store := .%s, guarded := %s, ret := %d }" % (
-                c["code"], ", ".join(gs), c["store"], "true" if c["guarded"] else "false", c["ret"]))
+            return ", ".join(gs)
+        for c in f["cases"]:
+            rows.append("      { code := %d, guards := [%s], destGuards := [%s], store := .%s, guarded := %s, ret := %d }" % (
+                c["code"], fmt_guards(c["guards"]), fmt_guards(c["dest_guards"]), c["store"], "true" if c["guarded"] else "false", c["ret"]))
         L.append(",\n".join(rows))
         L.append("    ] }")
         L.append("")
